@@ -368,14 +368,22 @@ def shard(ctx, budget_s, learn):
     # ---- segmentation / address independence of the decision ----------------------------------------------------------------
     deadline = time.time() + budget_s
     real = sigref.RealMatcher(ctx)
-    pool = list(wits)
-    for pid in (HTTP, SSH, GHOST, STUN, RPC_TCP, SMB1, SMB2):
-        for full, free in forms(pid, rng):
-            p = bytes(rng.getrandbits(8) if i in free else full[i] for i in range(len(full)))
-            if sigref.identify(p, False) == pid and real.identify(p, False) == pid:
-                pool.append((pid, p))
-    rng.shuffle(pool)
-    for pid, payload in pool:
+    def more_witnesses():
+        out = []
+        for pid in (HTTP, SSH, GHOST, STUN, RPC_TCP, SMB1, SMB2):
+            for full, free in forms(pid, rng):
+                p = bytes(rng.getrandbits(8) if i in free else full[i] for i in range(len(full)))
+                if sigref.identify(p, False) == pid and real.identify(p, False) == pid:
+                    out.append((pid, p))
+        rng.shuffle(out)
+        return out
+    pool = list(wits) + more_witnesses()
+    rounds = 0
+    while pool:
+        pid, payload = pool.pop()
+        if not pool and ctx.tier == "thorough" and time.time() < deadline:
+            pool = more_witnesses()          # thorough: keep instantiating the free positions until the budget is used
+            rounds += 1
         if time.time() > deadline:
             break
         ref = lab.decision([payload], v6=False)
